@@ -96,7 +96,7 @@ def pauli_type_finder(x_matrix, z_matrix, pivot):
     return pauli_x_list, pauli_y_list, pauli_z_list
 
 
-def inverse_circuit(tableau):
+def inverse_circuit(tableau, _full_rank=False):
     """
     Find the inverse circuit that transforms the input stabilizer tableau back to the stabilizer tableau
     of :math:`|0\\rangle^{\\otimes n}` state
@@ -110,25 +110,29 @@ def inverse_circuit(tableau):
     pivot = [0, 0]
     n_qubits = tableau.n_qubits
     tableau = canonical_form(tableau)
+    canonical = tableau.copy()
 
     # Hadamard block
-    for j in range(n_qubits):
-        pivot[1] = j
-        x_list, y_list, z_list = pauli_type_finder(
-            tableau.x_matrix, tableau.z_matrix, pivot
-        )
-        if x_list:
-            tableau = tab_row_swap(tableau, pivot[0], x_list[0])
-        elif y_list:
-            tableau = tab_row_swap(tableau, pivot[0], y_list[0])
-        elif z_list:
-            tableau = tab_row_swap(tableau, pivot[0], z_list[-1])
-            if np.any(tableau.x_matrix[pivot[0], j + 1 : n_qubits]) or np.any(
-                tableau.z_matrix[pivot[0], j + 1 : n_qubits]
-            ):
-                circuit_list.append(("H", j))
-                tableau = transform.hadamard_gate(tableau, j)
-        pivot[0] = pivot[0] + 1
+    if _full_rank:
+        tableau, circuit_list = _full_rank_hadamard_block(tableau)
+    else:
+        for j in range(n_qubits):
+            pivot[1] = j
+            x_list, y_list, z_list = pauli_type_finder(
+                tableau.x_matrix, tableau.z_matrix, pivot
+            )
+            if x_list:
+                tableau = tab_row_swap(tableau, pivot[0], x_list[0])
+            elif y_list:
+                tableau = tab_row_swap(tableau, pivot[0], y_list[0])
+            elif z_list:
+                tableau = tab_row_swap(tableau, pivot[0], z_list[-1])
+                if np.any(tableau.x_matrix[pivot[0], j + 1 : n_qubits]) or np.any(
+                    tableau.z_matrix[pivot[0], j + 1 : n_qubits]
+                ):
+                    circuit_list.append(("H", j))
+                    tableau = transform.hadamard_gate(tableau, j)
+            pivot[0] = pivot[0] + 1
     # CNOT block
     for j in range(n_qubits):
         for k in range(j + 1, n_qubits):
@@ -161,11 +165,55 @@ def inverse_circuit(tableau):
             if tableau.x_matrix[k, j] == 0 and tableau.z_matrix[k, j] == 1:
                 tableau = tab_row_sum(tableau, j, k)
 
+    # the greedy choice of Hadamard positions above can leave a qubit without a pivot (rare, from five qubits on):
+    # the state is then not reduced to |0...0> and the reduction is redone with a choice that cannot fail
+    if not _full_rank and (
+        np.any(tableau.x_matrix)
+        or not np.array_equal(tableau.z_matrix, np.eye(n_qubits, dtype=int))
+    ):
+        return inverse_circuit(canonical, _full_rank=True)
+
     # Eliminate phase
     for i in np.nonzero(tableau.phase)[0]:
         tableau = transform.x_gate(tableau, i)
         circuit_list.append(("X", int(i)))
     return tableau, circuit_list
+
+
+def _full_rank_hadamard_block(tableau):
+    """
+    Hadamard block of the inverse circuit that always succeeds: Hadamard gates on the qubits in whose column the
+    row-reduced X block has no pivot make the X block full rank; row operations (which do not change the state) then
+    make it upper triangular with a unit diagonal.
+
+    :param tableau: the input tableau
+    :type tableau: StabilizerTableau
+    :return: the transformed tableau, list of gate instructions
+    :rtype: StabilizerTableau, list[tuple]
+    """
+    n_qubits = tableau.n_qubits
+
+    def _eliminate_below(tableau, row, column):
+        x_rows = [i for i in range(row, n_qubits) if tableau.x_matrix[i, column] == 1]
+        if x_rows:
+            tableau = tab_row_swap(tableau, row, x_rows[0])
+            for i in x_rows[1:]:
+                tableau = tab_row_sum(tableau, row, i)
+        return tableau, bool(x_rows)
+
+    row = 0
+    h_positions = []
+    for j in range(n_qubits):
+        tableau, found = _eliminate_below(tableau, row, j)
+        if found:
+            row += 1
+        else:
+            h_positions.append(j)
+    for j in h_positions:
+        tableau = transform.hadamard_gate(tableau, j)
+    for j in range(n_qubits):
+        tableau, _ = _eliminate_below(tableau, j, j)
+    return tableau, [("H", j) for j in h_positions]
 
 
 def tab_row_sum(tableau, row_to_add, target_row):
